@@ -209,11 +209,16 @@ def C15(tier):
     Ls = [4, 5] if tier == 'quick' else [5, 6, 7]
     jobs = [ajob('cpulist.L%d' % l, 'harness/C15_cpulist.c', ['-DL=%d' % l, '-DNOUT=3'], unwind=max(l + 5, 12), timeout=3000 if tier == 'quick' else 14000, mem_gb=16, extra=['--object-bits', '12'],
                  bounds=dict(string='every byte string of length <= %d, or unset' % l, output_capacity=3)) for l in Ls]
+    jobs.append(bjob('fini.migrate_back.r%d' % (4 if tier == 'quick' else 6), 'harness/C15_fini_migrate.c', ['t0'], 4 if tier == 'quick' else 6, [], timeout=1800, mem_gb=12, delete=list(SYNC_DELETE),
+                     extra_cfg=dict(wrap=['myth_notify_workers_exit', 'myth_cleanup_worker'], trap=['myth_init_ex_body', 'getenv', 'atoi', 'myth_get_n_available_cpus', 'real_free', 'real_malloc', 'myth_flmalloc', 'myth_flfree']),
+                     bounds=dict(start='main thread on worker 0 or 1 (symbolic)', resumes='after each hand-over the thread resumes on any idle worker (solver choice), up to R-1 times', workers=2),
+                     note='rich worker model with VERIF_STEAL_ANY; myth_notify_workers_exit / myth_cleanup_worker are recording wrappers'))
     jobs.append(ajob('envdefaults', 'harness/C15_envdefaults.c', [], unwind=24, timeout=600, bounds=dict(values='atoi result arbitrary int; CPU count in [1,4096]')))
-    return dict(jobs=jobs, assumptions=A_ASSUME + ['getenv returns an arbitrary NUL-terminated byte string of bounded length (or NULL); isdigit is the C-locale table; fprintf/fputc are no-ops',
+    return dict(jobs=jobs, assumptions=A_ASSUME + ['fini.migrate_back (engine B): rich worker model (model/verif_model_impl.h, VERIF_RICH + VERIF_STEAL_ANY): context-switch macros and run queue are models, a queued thread resumes on any idle worker chosen by the solver; myth_notify_workers_exit and myth_cleanup_worker are replaced at their call sites by recording wrappers; schedules with at most R segments', 'getenv returns an arbitrary NUL-terminated byte string of bounded length (or NULL); isdigit is the C-locale table; fprintf/fputc are no-ops',
                                                  'atoi is an arbitrary int (what the caller does with the value is the subject)', 'signed overflow of >9-digit numbers is outside the bound (strings <= 7 bytes)'],
                 functions=['myth_parse_cpu_list', 'parse_range_list', 'parse_range', 'parse_int', 'next_char', 'cur_char', 'parse_error', 'int_list_add',
-                           'myth_globalattr_init_body', 'myth_globalattr_default_stacksize', 'myth_globalattr_default_guardsize', 'myth_globalattr_default_num_workers'])
+                           'myth_globalattr_init_body', 'myth_globalattr_default_stacksize', 'myth_globalattr_default_guardsize', 'myth_globalattr_default_num_workers',
+                           'myth_startpoint_exit_ex_body', 'myth_startpoint_exit_ex_1'])
 
 
 def C17(tier):
